@@ -18,3 +18,9 @@ Print Assumptions C16_same_probe_step.
 Theorem C16_same_new_size : forall n, ht_new_size_cpp n = ht_new_size_c n.
 Proof. reflexivity. Qed.
 Print Assumptions C16_same_new_size.
+
+(* the growth of the variable length object and of the object stack segment is the same expression in both sources *)
+Theorem C16_same_growth : forall len add dflt,
+  vlo_new_len_cpp len add = vlo_new_len_c len add /\ os_new_seg_cpp len add dflt = os_new_seg_c len add dflt.
+Proof. intros len add dflt. split; reflexivity. Qed.
+Print Assumptions C16_same_growth.
